@@ -6,7 +6,8 @@ RULE = ("one fixed case covering the WHOLE ExchangeId enum (42 variants: exall +
         "+ random cases of three kinds: 30 % name cases (12 / thorough 24 stateless ops over {ani, ane, ini, ine, nfe, nfu, eqci, cmp, asset, assetx, "
         "idx, keyed, side, sidede, exde, md}; strings from a per-case pool of 4 built from 10 words in 5 casings, 5 separators, digits, 6 % with one of "
         "14 awkward ASCII characters (quote, backslash, control characters, the neighbours of A-Z / a-z), 3 % empty; market-data kinds with 12 boundary "
-        "expiries (epoch, day boundaries, 29 Feb 2000 / 2024, 1 Jan 2100, 31 Dec 9999) and strikes with scale 0-8 incl. 0 and negatives), 10 % the same with a "
+        "expiries (epoch, day boundaries, 29 Feb 2000 / 2024, 1 Jan 2100, 31 Dec 9999 = the largest expiry an op may carry: a larger one is answered `bad-op` by harness, model "
+        "and spec) and strikes with scale 0-8 incl. 0 and negatives), 10 % the same with a "
         "non-ASCII probe stream (Latin-1, Greek, Cyrillic capitals / smalls, U+0130, final and capital sigma in strings of <= 20 bytes, uncased CJK / emoji / "
         "Arabic digit; compared implementation-vs-model only, the spec is silent), 60 % index cases (0-6 / thorough 0-10 definitions through Instrument::new / "
         "Instrument::spot over 1-4 exchanges drawn from the whole enum, 2-4 instrument names and 2-4 assets each written in random casings so that different "
@@ -17,7 +18,13 @@ RULE = ("one fixed case covering the WHOLE ExchangeId enum (42 variants: exall +
         "49-character name). thorough additionally enumerates every string of length <= 3 over {a, B, _} (40 strings: the three constructors, and eqci + cmp "
         "for every ordered pair) and every sequence of 1-3 definitions from a pool of four that collide in every way, each followed by a full lookup sweep "
         "(3 exchanges x 5 asset names x 4 instrument names, every index up to one past the end). A case is distinct by the SHA-1 of its op lines and "
-        "non-trivial when two of its ops produce different observations")
+        "non-trivial when two of its ops produce different observations. Oracle (spec mode, computed from the ops alone by functions that do not call the builder model): "
+        "names = the documented letter-table reading; map_asset_key_with_lookup = Ok with every asset replaced, or the FIRST missing reference in the order base, quote, "
+        "settlement, quantity unit; `build` = the three counts, exchanges() = the variants that occur in declaration order, assets() = the distinct (exchange, asset) pairs "
+        "ascending in (exchange, internal name, exchange name) with key = position, instruments() = the distinct definitions ascending in the derived order of the type "
+        "declarations with the exchange reference = position of the exchange and every asset reference = position of the asset it was defined with; find_exchange_index / "
+        "find_asset_index / find_instrument_index = Ok(rank) exactly when added during initialisation (rank = number of distinct entries whose (exchange, internal name) comes "
+        "first), otherwise the documented error variant; find_exchange / find_asset / find_instrument = the entry at that position, the error of their own kind past the end")
 ASSUMPTIONS = [
     "char::is_lowercase / char::to_lowercase are modelled exactly on ASCII; on Latin-1, Greek U+0391-U+03C9, Cyrillic U+0400-U+045F and U+0130 the model's table is an "
     "assumption that the non-ASCII probe stream exercises (implementation vs model only); every other character is taken as uncased and is generated only from "
@@ -31,12 +38,19 @@ ASSUMPTIONS = [
     "decimals and expiries of an Instrument as naturals (integer Decimals, millisecond timestamps)",
     "serde is modelled at the level of the serde data model for the name types, ExchangeId and Side (a string in, a string out); for MarketDataInstrument the JSON text "
     "serde_json produces is modelled (string escaping included) and compared, its deserialiser is exercised by the harness only (round trip = 1)",
-    "Decimal's Display is modelled from (mantissa, scale) as given to Decimal::new, scale <= 8 in generated cases; NaiveDate's Display for timestamps >= 0 up to year 9999 "
-    "(proleptic Gregorian civil-from-days); negative timestamps and 5-digit years are not generated",
+    "Decimal's Display is modelled from (mantissa, scale) as given to Decimal::new, scale <= 8 in generated cases; NaiveDate's Display for timestamps 0 .. 253402300799999 ms "
+    "(year 9999; proleptic Gregorian civil-from-days). An op with a larger expiry is malformed (`bad-op` for harness, model and spec): chrono prints five-digit years with a "
+    "sign, cannot represent times past year 262142, and from 2^63 on the harness' conversion to i64 would wrap (corpus R6_expiry_bounds). Negative timestamps cannot be written",
     "IndexError payload strings are not compared (only the variant and that Display starts with the variant's prefix); Hash / Ord derives other than the string order used "
     "by the builder's sort are not modelled; Borrow / AsRef are checked to return the name (harness-side equality)",
-    "the spec (oracle) is silent where the documentation does not determine the answer or the code contradicts it: non-ASCII inputs, new_from_exchange_underlying's exchange "
-    "prefix, Display of ExchangeId, the error variant of a failed find_instrument_index, the value returned by positional lookups",
+    "the spec (oracle) is silent where the documentation does not determine the answer or the code contradicts it: non-ASCII inputs (a non-ASCII definition silences the "
+    "stateful ops of its case), new_from_exchange_underlying's exchange prefix, Display of ExchangeId, the error variant of a failed find_instrument_index, and - in a case where "
+    "one internal asset name carries two exchange names on one exchange (WFAssets of C11 violated) - the `in` lines of `build` and the value of find_instrument: the code resolves "
+    "such a reference to the FIRST asset with that internal name, not to the one the instrument was defined with (C11 asset_two_exchange_names_witness); counts, exchanges(), "
+    "assets() and every lookup by key keep their values there. The order the spec gives several definitions that share (exchange, name_internal) - the remaining members of "
+    "the derived Ord, read off the type declarations - is tied to the code by the run only (theorem side: find_instrument_index_least over the model's sort key)",
+    "the lookup theorems (sections E, G) range over the IndexedInstruments that IndexedInstruments::new / the builder / from_iter produce. The type also derives Deserialize: a "
+    "value read from arbitrary JSON need not have key = position, ascending tables or distinct entries; such values are outside the theorems and are not generated",
     "well-formedness hypotheses of C11 (WFAssets, WFNames) are NOT assumed: duplicates of (exchange, name_internal) and internal asset names with two exchange names are "
     "generated on purpose and covered by the first-match theorems",
 ]
@@ -60,24 +74,35 @@ CLAIM = False
 TECHNIQUE = ("Lean 4: function-for-function model of the name / key types of barter-instrument and of the error-carrying lookups of IndexedInstruments on top of the C11 "
              "builder model (strings enter it through a proved order-preserving injective code); finite-table facts by kernel `decide` over the whole ExchangeId enum; "
              "first-match characterisation of find_map lookups; refinement to a specification written from the doc comments; correspondence with the real functions")
-LEVEL_TEXT = ("Sub-check of C11. Lean theorems (lean/BarterModel/Props/C11N.lean, 66 audited), all for arbitrary inputs unless marked ASCII: internal names are the lower-cased "
+LEVEL_TEXT = ("Sub-check of C11. Lean theorems (lean/BarterModel/Props/C11N.lean, 83 audited), all for arbitrary inputs unless marked ASCII. Names: internal names are the lower-cased "
               "input, the all-lowercase shortcut is unobservable, constructors idempotent, (ASCII) equal to the documented letter-table reading, length preserving, and two "
-              "inputs give the same name iff they are equal up to the case of Latin letters; exchange names verbatim; Display / Serialize / Deserialize round trip for every "
-              "constructed value and, for an arbitrary value of the pub-field InstrumentNameInternal, iff it is already lower-case; the ExchangeId table: 42 variants, "
+              "inputs give the same name iff they are equal up to the case of Latin letters; deserialising what was serialised / displayed gives a constructed value back, and for "
+              "an arbitrary value of the pub-field InstrumentNameInternal iff it is already lower-case. The ExchangeId table: 42 variants, "
               "declaration position a bijection, as_str injective, serde snake_case = as_str = documented reading, what deserialises to a variant (as_str, plus `huobi` for "
-              "Htx), Display = variant identifier, never as_str; new_from_exchange = as_str-dash-lowercased name and determines the exchange and the name up to case "
-              "(`unique across exchanges`); new_from_exchange_underlying uses Display, agrees with new_from_exchange exactly for the 26 exchanges without an underscore, and "
-              "does not determine (base, quote); the name code is injective, strictly monotone w.r.t. Rust's str order, and decodable (<= 48 characters); Instrument::new / "
-              "spot / map_exchange_key laws; map_asset_key_with_lookup succeeds iff every referenced asset is found and otherwise returns the lookup's error of the first "
-              "missing reference in the order base, quote, settlement, quantity unit, and with the error forgotten it is the Option form the C11 builder model uses; market-data view; for EVERY index the C11 builder model can produce, without "
+              "Htx), Display never equal to as_str (lower-cased it is as_str without the underscores); new_from_exchange = as_str-dash-lowercased name and determines the exchange and the name up to case "
+              "(`unique across exchanges`); new_from_exchange_underlying uses Display, agrees with new_from_exchange for EVERY base and quote exactly on the exchanges without an "
+              "underscore (underlying_agrees_pointwise; 26 of the 42, 16 disagree: underlying_agreement_counts), determines the exchange (underlying_determines_exchange) but "
+              "not (base, quote) (underlying_collision); the name code is injective, strictly monotone w.r.t. Rust's str order and decodable up to 48 characters, and the bound is "
+              "necessary (name_code_bound_necessary). map_asset_key_with_lookup succeeds iff every referenced asset is found, then with exactly the mapped value "
+              "(map_asset_key_ok_value), and otherwise returns the lookup's error of the first "
+              "missing reference in the order base, quote, settlement, quantity unit; with the error forgotten it is the Option form the C11 builder model uses. For EVERY index the C11 builder model can produce, without "
               "well-formedness hypotheses: each find_*_index answers Ok i iff position i holds a matching entry and no earlier position does (for exchanges: iff position i "
               "holds it), each find_* (i) returns the i-th entry iff i is in range, a miss gives exactly the stated IndexError and happens iff no definition mentions the key; "
-              "exchanges() / assets() hold exactly the exchanges / (exchange, asset) pairs the definitions mention, each once, key = position; exchanges() is strictly ascending and "
-              "find_exchange_index is the rank among the distinct exchanges; with several definitions under one (exchange, "
-              "name_internal) find_instrument_index returns the least in the derived order; on string-named definitions the lookups refine the documented behaviour "
-              "(found iff added during initialisation, round trip through the positional lookup, case of the queried name ignored). Counter-documentation facts are theorems "
-              "too: missing_instrument_reports_asset_error, display_is_not_as_str / underlying_agrees_iff / underlying_collision, display_not_value_function. The model is "
-              "tied to the code by running the same ops through the real functions.")
+              "exchanges() / assets() hold exactly the exchanges / (exchange, asset) pairs the definitions mention, each once, key = position; exchanges() and assets() are strictly "
+              "ascending (declaration order; exchange, internal name, exchange name), instruments() ascending in (exchange, internal name); the answers of the three lookups by key "
+              "are functions of the input alone: the rank among the distinct exchanges / the number of distinct (exchange, asset) pairs / of distinct definitions whose "
+              "(exchange, internal name) comes first (find_exchange_index_is_rank, find_asset_index_is_rank, find_instrument_index_is_rank); with several definitions under one "
+              "(exchange, name_internal) find_instrument_index returns the least in the derived order, and the entry at the answered index carries that definition's names, its "
+              "exchange's position and - under WFAssets - reads back to the definition itself (find_instrument_index_entry). On string-named definitions the lookups refine the "
+              "documented behaviour (found iff added during initialisation, round trip through the positional lookup, the queried name enters only through its lower-casing: "
+              "lookup_ignores_case'), and the specification's own tables and values - written without the builder - are the builder's: exchange_table_is_spec, asset_table_is_spec "
+              "(insertion into an ascending list = sort + dedup), lookup_exchange_index_value / lookup_asset_index_value / lookup_instrument_index_value, positional_values. "
+              "Counter-documentation facts are theorems too: missing_instrument_reports_asset_error, display_is_not_as_str / underlying_agrees_iff / underlying_collision, "
+              "display_not_value_function. Definitional / bookkeeping statements (they restate the model's definitions and are not results): exchange_names_verbatim, "
+              "asset_new_from_exchange, instrument_new_fields, map_exchange_key_laws, market_data_new, the Display and the two exchange-name conjuncts of serde_display_round_trip, "
+              "the first conjunct of display_is_not_as_str (Display = variant identifier). The model is tied to the code by running the same ops through the real functions; the "
+              "spec driver prints every table and every lookup value above as a function of the ops.")
 LEVEL_NOTE = ("Trusted: Lean kernel (axioms propext/Classical.choice/Quot.sound only); the hand-written model tied by sampled correspondence (whole ExchangeId enum on every run); "
-              "harness and driver; the non-ASCII rows of the case tables are an assumption (probed, not proved); str::to_lowercase's final-sigma rule for names longer than 23 "
-              "bytes is outside the model.")
+              "harness and driver (the spec mode's sorting and ranking functions are those of Model/Names.lean, section `tables`; its comparator for the derived order of whole "
+              "Instrument values beyond exchange and internal name is tied by the run only); the non-ASCII rows of the case tables are an assumption (probed, not proved); "
+              "str::to_lowercase's final-sigma rule for names longer than 23 bytes is outside the model; IndexedInstruments values obtained by deserialisation are outside the theorems.")
